@@ -384,7 +384,9 @@ func timeouts(t *testing.T, rep *ev.Report) {
 		// a negative value encodes "-timeout-http-idle 0s with -timeout-http-read 45s": per net/http (which the flag documentation
 		// refers to) the read timeout then is the idle timeout - for HTTP/1.1 clients just as for HTTP/2 clients
 		// what the client did before it fell silent. HTTP/1.1: one or two exchanges. HTTP/2: every history of up to three
-		// letters over S (request served), C (request cancelled by RST_STREAM while in flight), and - ending the history -
+		// letters over S (request served), C (request cancelled by RST_STREAM while in flight), T (upload ending in a trailer
+		// section, served), P (request refused with a stream error: self-dependent priority), W (WINDOW_UPDATE and PRIORITY
+		// frames), and - ending the history -
 		// G (client GOAWAY on an idle connection), X (client GOAWAY while a request is in flight, then RST_STREAM of it),
 		// R (client GOAWAY while a request is in flight, which is then answered)
 		type hist struct {
@@ -400,7 +402,7 @@ func timeouts(t *testing.T, rep *ev.Report) {
 			if len(cur) == 3 || strings.ContainsAny(cur, "GXR") {
 				return
 			}
-			for _, l := range "SCGXR" {
+			for _, l := range "SCTPWGXR" {
 				gen(cur + string(l))
 			}
 		}
@@ -408,7 +410,7 @@ func timeouts(t *testing.T, rep *ev.Report) {
 		for _, hi := range hists {
 			{
 				proto, letters := hi.proto, hi.letters
-				desc := fmt.Sprintf("idle-timeout I=%v proto=%s after client history %s (S served, C cancelled by RST_STREAM in flight, G client GOAWAY when idle, X GOAWAY then RST_STREAM of the request in flight, R GOAWAY then the request in flight is answered)", I, proto, letters)
+				desc := fmt.Sprintf("idle-timeout I=%v proto=%s after client history %s (S served, C cancelled by RST_STREAM in flight, T upload with trailers served, P request refused for a self-dependent priority, W WINDOW_UPDATE+PRIORITY, G client GOAWAY when idle, X GOAWAY then RST_STREAM of the request in flight, R GOAWAY then the request in flight is answered)", I, proto, letters)
 				I := I
 				opts := func() bubble.StackOpts { return binaryStack("10s", I.String()) }
 				if I < 0 {
@@ -449,6 +451,23 @@ func timeouts(t *testing.T, rep *ev.Report) {
 							want++
 						case l == 'G':
 							cl.Write(h2wire.GoAway(0, 0, nil))
+						case l == 'T':
+							// an upload that ends with a trailer section (HEADERS, DATA, HEADERS with END_STREAM), served
+							path := fmt.Sprintf("/i%d", i)
+							cl.Write(h2wire.Headers(id, cl.Enc.Block(h2wire.HF{Name: ":method", Value: "POST"}, h2wire.HF{Name: ":scheme", Value: "https"},
+								h2wire.HF{Name: ":authority", Value: "localhost"}, h2wire.HF{Name: ":path", Value: path}, h2wire.HF{Name: "trailer", Value: "x-sum"}), false, true, nil, -1))
+							cl.Write(h2wire.Data(id, []byte("payload"), false, -1))
+							cl.Write(h2wire.Headers(id, cl.Enc.Block(h2wire.HF{Name: "x-sum", Value: "1"}), true, true, nil, -1))
+							want++
+						case l == 'P':
+							// a request the server must refuse: its priority field names the stream itself (stream error
+							// PROTOCOL_ERROR, RFC 7540 5.3.1); no handler runs, the connection goes on
+							cl.Write(h2wire.Headers(id, cl.Enc.Block(h2wire.HF{Name: ":method", Value: "GET"}, h2wire.HF{Name: ":scheme", Value: "https"},
+								h2wire.HF{Name: ":authority", Value: "localhost"}, h2wire.HF{Name: ":path", Value: fmt.Sprintf("/i%d", i)}), true, true, &h2wire.Prio{Dep: id, Weight: 10}, -1))
+						case l == 'W':
+							// frames that only concern the connection: flow-control credit and a priority hint
+							cl.Write(h2wire.WindowUpdate(0, 1000))
+							cl.Write(h2wire.Priority(id+100, h2wire.Prio{Dep: 0, Weight: 7}))
 						default: // C X R: a request in flight
 							cl.SendH2(id, bubble.Req{Path: fmt.Sprintf("/held%d", i), Host: "localhost"})
 							want++
